@@ -85,6 +85,15 @@ pub fn bradford(from: [f64; 3], to: [f64; 3]) -> Option<M3> {
     Some(mat_mul(&inv, &mat_mul(&d, &BRADFORD)))
 }
 
+/// Bradford cone responses of a white point (Y = 1) relative to those of the
+/// PCS illuminant D50.  ICC v4 mandates a (linear Bradford) `chad` to D50; it is
+/// only meaningful where all three ratios are positive and moderate.
+pub fn bradford_cone_ratio(wp: Xy) -> [f64; 3] {
+    let w = mat_vec(&BRADFORD, &xy_to_xyz(wp));
+    let d = mat_vec(&BRADFORD, &PCS_D50);
+    [w[0] / d[0], w[1] / d[1], w[2] / d[2]]
+}
+
 /// RGB->XYZ matrix for the primaries and white point (columns are the
 /// primaries' XYZ); also returns the three column sums S_i (= the barycentric
 /// weight of the white point for primary i, divided by the white point's y).
